@@ -1,20 +1,75 @@
-(* Properties/C04.v — the virtual file-system view (label: partial).  Proved:
-   queries are read-only (they change nothing but BuildDirs bookkeeping and the
-   hash memo — in particular not the tree, the caches or the log), and the
-   mutual consistency of the answers holds by construction of the routines:
-   exists is is_file-or-is_dir, list_dir filters its candidates with exists and
-   requires is_dir, read / list_dir / get_size raise exactly when the
-   corresponding predicate is false.  NOT yet a theorem: that the answers equal
-   the ordinary POSIX answers on the reference tree (Spec/Ref.v) in every
-   reachable world (the BuildDirs / CreatedFiles refinement); that is decided on
-   the implementation by T3 (every answer is compared with the reference answer)
-   and through the Core model (exact agreement on all generated histories). *)
+(* Properties/C04.v — the virtual file-system view (label: partial).
+   MAIN THEOREMS (Proofs/View*.v, 3400 lines, on the mechanism model = build_dirs.py /
+   simple_operation_executor.py routine by routine):
+   * the VIEW of a world is defined semantically (ViewDefs.v: a regular file is hidden when it
+     is the cache file, an old output not rebuilt, or a target in progress; a directory is
+     dead when it is a candidate of the previous build, not reserved by this build, and
+     everything physically in it is hidden or dead), without the caches of BuildDirs;
+   * C04_scan_sound: under the invariant BInv the cached, state-changing scan
+     (_check_maybe_removed_dir / is_removed_norm_case) decides exactly `dead`, never runs out
+     of fuel, and its cache updates preserve BInv and the view;
+   * C04_answers_are_posix_answers_on_the_view: every live query (exists, is_file, is_dir,
+     list_dir, walk, get_size; read: exec_query_view) answers - value or error class - what
+     the ordinary POSIX answer on the view tree is, and leaves the view unchanged;
+   * the consistency laws of the property on the view (exists = is_file or is_dir; list_dir =
+     the names that exist; the parent of anything that exists is a directory);
+   * C04_view_at_build_start_is_the_cleaned_tree: BInv holds when user code starts, and the
+     view then IS the reference tree ref_clean (previous outputs, cache file and emptied
+     created directories gone), entry by entry.
+   Also proved (ViewPres/ViewFrame/ViewPrepare.v): cache lookups and replays (overlay case)
+   preserve BInv and the view; claiming, finishing, aborting a target and creating its
+   directories preserve BInv.  NOT proved (stated as Props in ViewC04.v): BInv along the error
+   path of build_file (needs a counting invariant XInv, written out there), _make_room, and
+   hence BInv for every reachable world; side conditions: creatable names (no over-long
+   component), trees shallower than the walk fuel, a well-formed previous cache (old_ok).
+   Those parts, and the tie to the code, are decided by T2/T3 (every answer of every
+   generated history is compared with the reference answer). *)
 From Coq Require Import List String Bool.
 From FB.Base Require Import PyVal Fs.
 From FB.Model Require Import Types Monad CreatedFiles BuildDirs SimpleOps Builder.
-From FB.Proofs Require Import ReplayLaws.
+From FB.Spec Require Import Ref.
+From FB.Model Require Import Build.
+From FB.Proofs Require Import ReplayLaws ViewDefs ViewLemmas ViewScan ViewQueries ViewAnswers ViewInit ViewClean.
 Import ListNotations.
 Open Scope m_scope.
+
+Theorem C04_scan_sound : forall w, BInv w -> forall d,
+  match is_removed (w_fs w) (w_bd w) d with
+  | ScanOk b' r => (isdir (w_fs w) d = true -> r = dead w d) /\ good w (set_bd b' w)
+  | ScanErr b' e =>
+      lookup (w_fs w) d = None /\ absent_err (w_fs w) d = EOTHER /\ e = EOTHER /\ path_ok d = false /\
+      mem_path d (bd_maybe (w_bd w)) = true /\ good w (set_bd b' w)
+  | ScanFuel => False
+  end.
+Proof. exact is_removed_sound. Qed.
+
+Theorem C04_answers_are_posix_answers_on_the_view : forall w q, BInv w ->
+  path_ok (spec_query_path q) = true ->
+  (forall p c, q <> QRead p c) ->
+  (forall p td, q = QWalk p td -> vdir w p = true -> maxlen (w_fs w) < walk_fuel + List.length p) ->
+  yields (exec_query q None) w (to_res (spec_answer (view_fs w) q)).
+Proof. exact exec_query_spec_answer. Qed.
+
+Theorem C04_view_exists_is_file_or_dir : forall w p, visible w p = vfile w p || vdir w p.
+Proof. exact view_exists_file_or_dir. Qed.
+
+Theorem C04_view_list_dir_is_the_names_that_exist : forall w d n, BInv w ->
+  In n (children (view_fs w) d) <-> visible w (n :: d) = true.
+Proof. exact view_list_dir_names. Qed.
+
+Theorem C04_view_parent_of_what_exists_is_a_directory : forall w n d, BInv w ->
+  visible w (n :: d) = true -> vdir w d = true.
+Proof. exact view_parent_is_dir. Qed.
+
+Theorem C04_invariant_holds_when_user_code_starts : forall w cachefile old nm vers,
+  fs_wf (w_fs w) -> old_ok old cachefile -> BInv (start_world w cachefile old nm vers).
+Proof. exact BInv_start_world. Qed.
+
+Theorem C04_view_at_build_start_is_the_cleaned_tree : forall w cachefile old nm vers,
+  fs_wf (w_fs w) -> old_ok old cachefile ->
+  forall p, lookup (view_fs (start_world w cachefile old nm vers)) p =
+            lookup (ref_clean (w_fs w) cachefile (pv0 old nm)) p.
+Proof. exact view_start_is_ref_clean. Qed.
 
 Theorem C04_queries_read_only : forall q cf w w' r, exec_query q cf w = (w', r) -> same_but_view w w'.
 Proof. exact query_footprint. Qed.
